@@ -74,6 +74,19 @@ class PROP(Prop):
                             fr = cligen.frame(proto, 0, slave, own + extra)
                             cs.append(Case(cligen.cli_line(proto, slave, [cligen.call_op(req, R="d" + fr.hex(), typed=True)]),
                                            {"foreign": True, "req": mb.show_req(req), "pdu": (own + extra).hex(), "split": 0}, prof))
+                # the matching reply with its PDU cut short INSIDE a complete frame (the MBAP length covers exactly what is there; the byte count
+                # still announces more) or announcing one byte more than it carries: a result (an error), never a panic, never success
+                if proto == "tcp":
+                    for req in typed_reqs:
+                        own = mb.spec_rsp_pdu(mb.matching_rsp(rng, req))
+                        shorts = [own[:-k] for k in (1, 2, 3) if len(own) > k + 1]
+                        if req[0] in ("RC", "RDI", "RHR", "RIR", "RWMR"):
+                            shorts.append(bytes([own[0], (own[1] + 1) & 0xFF]) + own[2:])
+                        for pdu in shorts:
+                            slave = rng.randrange(1, 248)
+                            fr = cligen.frame(proto, 0, slave, pdu)
+                            cs.append(Case(cligen.cli_line(proto, slave, [cligen.call_op(req, R="d" + fr.hex(), typed=True)]),
+                                           {"foreign": True, "req": mb.show_req(req), "pdu": pdu.hex() + " (its own reply, PDU cut short inside the frame)", "split": 0}, prof))
                 # a reply that stops short: the first `cut` bytes of the matching reply arrive (in one piece or byte by byte), then the
                 # server closes or the connection fails -- a result (an error), never a panic, never success
                 for req in typed_reqs:
